@@ -125,7 +125,8 @@ class VersionedDataHandler:
             )
 
             # check if perc_expected_vote_corr is monotone increasing (if not, give up and don't try to estimate a margin)
-            if not np.all(np.diff(perc_expected_vote_corr) >= 0):
+            # (when the latest turnout is zero the corrected percentages are all zero, so also look at the turnout)
+            if not np.all(np.diff(perc_expected_vote_corr) >= 0) or not np.all(np.diff(results_turnout) >= 0):
                 return pd.DataFrame(
                     {
                         "percent_expected_vote": np.arange(101),
